@@ -94,8 +94,10 @@ def run(ctx):
     # ---------------- part B: Hutchinson values / iteration counts against the Coq model ----------------
     gen = T.Gen(ctx.rng, kinds=[k for k in T.LEAF + T.COMP if k not in ("KronSum", "Concat", "Sliced")], dts=("float64",))
     gen.sparse_sorted = True      # C01's recorded finding sparse_unsorted_cols is not this property's subject
-    nZ, nF = ctx.budget(150, 1500), ctx.budget(120, 1200)
+    nZ, nF = ctx.budget(300, 2000), ctx.budget(250, 1500)
     it_hist, k_hist, ties_total = {}, {}, 0
+    by_tol = 0
+    by_tol1 = 0
     for tier, cnt in (("Z", nZ), ("F", nF)):
         cases = [H.gen_case(ctx, gen, tier) for _ in range(cnt)]
         obs = [H.run_impl(c) for c in cases]
@@ -111,6 +113,8 @@ def run(ctx):
             chain = H.key_chain_ok(c, o)
             if o.get("ok"):
                 it_hist[o["iters"]] = it_hist.get(o["iters"], 0) + 1
+                by_tol += int(1 < o["iters"] < c["max_iters"])
+                by_tol1 += int(o["iters"] < c["max_iters"])
                 k_hist[c["k"]] = k_hist.get(c["k"], 0) + 1
                 if o["iters"] > 1 or c["k"] != 0:
                     distinct.add(core.digest([c["D"], c["k"], c["key"], c["max_iters"], c["tol"], c["rand"]]))
@@ -121,7 +125,8 @@ def run(ctx):
         if tier == "Z":
             samples.append(dict(part="hutch", n=cases[0]["n"], k=cases[0]["k"], key=cases[0]["key"], max_iters=cases[0]["max_iters"],
                                 tol=cases[0]["tol"], rand=cases[0]["rand"], D=cases[0]["D"], iters=obs[0].get("iters")))
-    extra.update(hutch_cases=nZ + nF, hutch_iteration_histogram=it_hist, hutch_offset_histogram=k_hist, near_tie=ties_total)
+    extra.update(hutch_cases=nZ + nF, hutch_iteration_histogram=it_hist, hutch_offset_histogram=k_hist, near_tie=ties_total,
+                 hutch_stopped_by_tolerance_after_more_than_one_block=by_tol, hutch_stopped_by_tolerance=by_tol1)
 
     # statistical unbiasedness (never a theorem)
     tests, fails = H.unbiased_ztest(ctx, ctx.budget(6, 30), ctx.budget(1500, 4000))
@@ -131,7 +136,7 @@ def run(ctx):
         mism.append(dict(oracle_fail=True, part="hutch_unbiased_ztest", case=f, failed_clauses=["mean over keys is more than 8 standard errors from the true entry"]))
 
     # ---------------- parts A/C: histories against the generator machine ----------------
-    nh = ctx.budget(60, 500)
+    nh = ctx.budget(120, 700)
     terms, hists, site_hist, not_reachable = [], [], {}, {}
     for hno in range(nh):
         h = R.gen_history(ctx.rng, ctx.rng.randint(4, 14), R.SITES)
